@@ -100,6 +100,11 @@ def _digest(emu):
     try:
         buf = emu.lcd.get_display_buffer()
         h.update(bytes(int(v) & 0xFF for row in buf for v in row))
+        # the controller registers of both chips (on, start line, page, column) and the VRAM
+        for chip in emu.lcd.chips:
+            st = chip.state
+            h.update(bytes([int(bool(st.on)), st.start_line & 0xFF, st.page & 0xFF, st.y_address & 0xFF]))
+            h.update(bytes(int(b) & 0xFF for row in chip.vram for b in row))
     except Exception:  # noqa: BLE001
         pass
     return h.hexdigest()[:16]
